@@ -8,6 +8,11 @@ import (
 	"verifmc/ref"
 )
 
+// `mc probe-views` (development aid, not a check): every representative operator case with one input at a time handed
+// over as a non-contiguous view. On the pinned tree most operators mishandle such operands (wrong values, wrong
+// shapes, refusals, panics - gorgonia kernels and gonnx code that read Data() directly), which is why memory layout
+// is not part of any check's input space (DESIGN.md, section 5).
+
 // viewOf builds a non-contiguous view holding exactly t's logical values: a tensor whose last axis is one longer,
 // sliced back to t's shape (rank >= 1, more than one row) - what a caller gets from tensor.Slice.
 func viewOf(t *ref.T) tensor.Tensor {
